@@ -292,13 +292,26 @@ Theorem pspace_norm_triangle_inequality : forall q (s : @space R) (x y : @elem R
 Proof. exact sp_norm_triangle. Qed.
 Print Assumptions pspace_norm_triangle_inequality.
 
-(* dist(x, y) = norm(x - y): every leaf, every array-weighted product space and every
-   constant-weighted product space whose top node does not take the exponent-2-through-inner
-   path.  (On that path the statement is refuted above when a component has exponent <> 2; for
-   all-exponent-2 components it is validated by the correspondence and probes, not proved.) *)
-Theorem pspace_dist_is_norm_of_difference_partial : forall q (s : @space R) (x y : @elem R),
+(* dist(x, y) = norm(x - y) and dist(y, x) = dist(x, y) on EVERY normable tree: leaves, array- and
+   constant-weighted product spaces of any exponent, including the exponent-2 node of today's code
+   where norm goes through the components' inner products while dist goes through their norms
+   ([hleaves_ok]: the leaves below such a node hold at least one entry and are not 0-d).
+   The unrestricted statement (any components under an exponent-2 node) is refuted above. *)
+Theorem pspace_dist_is_norm_of_difference_and_symmetric : forall q (s : @space R) (x y : @elem R),
   normable q s x -> same_shape x y ->
-  (match s with SProd (PWConst _) p _ => is2 p && q_ps2_via_inner q = false | _ => True end) ->
-  sp_dist q s x y = Ok (sp_norm_v q s (esub x y)).
-Proof. exact sp_dist_value. Qed.
-Print Assumptions pspace_dist_is_norm_of_difference_partial.
+  (match s with
+   | SProd (PWConst _) p _ => is2 p && q_ps2_via_inner q = true -> hleaves_ok s x
+   | _ => True end) ->
+  sp_dist q s x y = Ok (sp_norm_v q s (esub x y)) /\
+  sp_dist q s y x = Ok (sp_norm_v q s (esub x y)).
+Proof. exact sp_dist_all. Qed.
+Print Assumptions pspace_dist_is_norm_of_difference_and_symmetric.
+
+(* non-vacuity of [normable] with mixed exponents: an exponent-inf product of an exponent-1 tensor
+   space and an exponent-3 product space *)
+Example normable_example :
+  let l1 := SLeaf (LTensor true false (LConst 2) (PFin 1)) in
+  let l3 := SLeaf (LTensor true false (LArr [1; 2]) (PFin 3)) in
+  let s := SProd (PWArr [1; 3]) PInf [l1; SProd (PWConst (/ 2)) (PFin 3) [l3; l1]] in
+  normable wit_quirks s (ENode [ELeaf [1; 2]; ENode [ELeaf [0; 5]; ELeaf [1]]]).
+Proof. exact normable_example_proof. Qed.
